@@ -2,6 +2,7 @@ package e2
 
 import (
 	"fmt"
+	"strings"
 	"testing"
 	"time"
 
@@ -138,6 +139,18 @@ func c18mutations() []c18stream {
 			add(t.name+"/identifier=65535", append(append([]byte{t.first}, encodeRemLen(len(b))...), b...))
 		}
 	}
+	// QoS 2 publishes that are never released, under the identifiers the broker itself is about to use for its next
+	// deliveries to this client (client and broker number their packets independently)
+	for id := byte(1); id <= 3; id++ {
+		add(fmt.Sprintf("PUBLISH-q2/identifier=%d-never-released", id), tmpl{"", 0x34, append(append(lp("h/t"), 0, id), []byte("data")...), nil, -1}.bytes())
+	}
+	add("PUBLISH-q2/identifiers-1-to-8-never-released", func() []byte {
+		var b []byte
+		for id := byte(1); id <= 8; id++ {
+			b = append(b, tmpl{"", 0x34, append(append(lp("h/t"), 0, id), []byte("data")...), nil, -1}.bytes()...)
+		}
+		return b
+	}())
 	// QoS 3, empty topic lists, requested QoS 3, will QoS 3
 	add("PUBLISH/qos3", tmpl{"", 0x36, append(lp("h/t"), 0, 5, 'x'), nil, -1}.bytes())
 	add("SUBSCRIBE/empty-topic-list", tmpl{"", 0x82, []byte{0, 7}, nil, -1}.bytes())
@@ -238,7 +251,11 @@ func TestC18HostileInput(t *testing.T) {
 				}
 				wsub.Subscribe(1, 1, "wit/#")
 				w.Step()
-				h := w.NewClient("hostile", 1, AckAll)
+				hp := AckAll
+				if strings.Contains(s.Name, "never-released") {
+					hp = AckNone // the stream's point is that the client does not go on with the handshakes it started
+				}
+				h := w.NewClient("hostile", 1, hp)
 				switch s.Context {
 				case "after-connect":
 					h.Connect(ConnectOpts{ClientID: "hostile", KeepAlive: 30})
